@@ -408,6 +408,7 @@ def run(chk):
                 "every range boundary (min-1, min, max, max+1) of each child with the ancestors selecting it, plus random payloads.  "
                 "non-trivial = a selector value no group uses, or >= 2 groups, or a nested multiplexer; distinct by (frame, payload/data)")
     ok = chk.build_and_audit()
+    tr_ok = ok and core.translator_tie(chk, ['gen/Tie_mux.v'], ['gen/Gen_mux.v'])
     cm = core.import_impl()
     C = cm.canmatrix
     import canmatrix.formats
